@@ -544,8 +544,18 @@ uncond_traits!([T] Always<T>, [], Always(PhantomData));
 uncond_traits!([const K: usize, T] Aw<K, T>, [], Aw(PhantomData));
 uncond_traits!([const K: usize, T] Wr<K, T>, [T: M<K>], Wr(PhantomData));
 
+/// Zero-sized operand carrying a lifetime and a const parameter (lets operator derives meet those parameter kinds).
+#[derive(Clone, Copy, Debug, Default, PartialEq, Eq, PartialOrd, Ord, Hash)]
+pub struct Lt<'l, const N: usize>(pub PhantomData<&'l [u8; N]>);
+
 macro_rules! probe_ops {
     ($Tr:ident, $f:ident, $TrA:ident, $fa:ident) => {
+        impl<'l, const N: usize> std::ops::$Tr<Lt<'l, N>> for Lt<'l, N> { type Output = Lt<'l, N>; fn $f(self, _: Lt<'l, N>) -> Lt<'l, N> { self } }
+        impl<'x, 'l, const N: usize> std::ops::$Tr<&'x Lt<'l, N>> for Lt<'l, N> { type Output = Lt<'l, N>; fn $f(self, _: &'x Lt<'l, N>) -> Lt<'l, N> { self } }
+        impl<'x, 'l, const N: usize> std::ops::$Tr<Lt<'l, N>> for &'x Lt<'l, N> { type Output = Lt<'l, N>; fn $f(self, _: Lt<'l, N>) -> Lt<'l, N> { *self } }
+        impl<'x, 'y, 'l, const N: usize> std::ops::$Tr<&'y Lt<'l, N>> for &'x Lt<'l, N> { type Output = Lt<'l, N>; fn $f(self, _: &'y Lt<'l, N>) -> Lt<'l, N> { *self } }
+        impl<'l, const N: usize> std::ops::$TrA<Lt<'l, N>> for Lt<'l, N> { fn $fa(&mut self, _: Lt<'l, N>) {} }
+        impl<'x, 'l, const N: usize> std::ops::$TrA<&'x Lt<'l, N>> for Lt<'l, N> { fn $fa(&mut self, _: &'x Lt<'l, N>) {} }
         // Yes: all four forms + both assign forms
         impl std::ops::$Tr<Yes> for Yes { type Output = Yes; fn $f(self, _: Yes) -> Yes { Yes } }
         impl<'a> std::ops::$Tr<&'a Yes> for Yes { type Output = Yes; fn $f(self, _: &'a Yes) -> Yes { Yes } }
@@ -610,6 +620,8 @@ probe_ops!(Shr, shr, ShrAssign, shr_assign);
 
 macro_rules! probe_unops {
     ($Tr:ident, $f:ident) => {
+        impl<'l, const N: usize> std::ops::$Tr for Lt<'l, N> { type Output = Lt<'l, N>; fn $f(self) -> Lt<'l, N> { self } }
+        impl<'x, 'l, const N: usize> std::ops::$Tr for &'x Lt<'l, N> { type Output = Lt<'l, N>; fn $f(self) -> Lt<'l, N> { *self } }
         impl std::ops::$Tr for Yes { type Output = Yes; fn $f(self) -> Yes { Yes } }
         impl<'a> std::ops::$Tr for &'a Yes { type Output = Yes; fn $f(self) -> Yes { Yes } }
         impl<T: std::ops::$Tr<Output = T>> std::ops::$Tr for Fwd<T> { type Output = Fwd<T>; fn $f(self) -> Fwd<T> { Fwd(std::ops::$Tr::$f(self.0)) } }
